@@ -36,6 +36,7 @@ def run(chk, ix, tier):
     rules_matching.check_same_step_definition(chk, ix)
     rules_matching.check_type_pattern_groups(chk, ix)
     rules_matching.check_match_objects_have_arguments(chk, ix)
+    rules_matching.check_cucumber_check_match(chk, ix)
     rules_order.check_match_protection(chk, ix)
-    for r, n in (("M1", 5), ("M2", 36), ("M3", 10), ("M4", 2), ("M5", 3), ("M6", 300), ("M7", 1), ("M8", 1), ("M9", 3), ("M10", 4), ("M11", 4), ("M12", 5)):
+    for r, n in (("M1", 5), ("M2", 36), ("M3", 10), ("M4", 2), ("M5", 3), ("M6", 300), ("M7", 1), ("M8", 1), ("M9", 3), ("M10", 4), ("M11", 4), ("M12", 5), ("M13", 3)):
         chk.require_instances(r, n)
